@@ -189,6 +189,11 @@ func checkPair(h1, h2 *data.ContentHash) (string, error) {
 
 // checkString: (c) a string that parses to a VALID content hash is the canonical spelling.
 func checkString(s string) (key string, anchorable bool, err error) {
+	defer func() {
+		if r := recover(); r != nil {
+			key, anchorable, err = "parser-panics", false, fmt.Errorf("ParseIRI(%q) panics: %v", s, r)
+		}
+	}()
 	h, e := data.ParseIRI(s)
 	if e != nil || h == nil {
 		return "", false, nil
@@ -219,6 +224,9 @@ func genIRIString(t *rapid.T) string {
 	case 1: // flip one character
 		b := []byte(valid)
 		i := rapid.IntRange(0, len(b)-1).Draw(t, "i")
+		if rapid.IntRange(0, 5).Draw(t, "nonascii") == 0 { // non-ASCII and invalid UTF-8 inside the IRI
+			return string(b[:i]) + rapid.SampledFrom([]string{"é", "€", "٣", "\x8b", "\xff\xfe", "Ｒ", "\u0000"}).Draw(t, "u") + string(b[i:])
+		}
 		b[i] = rapid.SampledFrom([]byte("123456789ABCDEFGHJKLMNPQRSTUVWXYZabcdefghijkmnopqrstuvwxyz0OIl.:")).Draw(t, "c")
 		return string(b)
 	case 2: // arbitrary payload with a correct checksum and arbitrary version
@@ -367,7 +375,7 @@ func FuzzC15ParseIRI(f *testing.F) {
 		"regen:13toVgf5UjYBz6J29ZJhTVyBbhkQkSh7ZdKWzc4XEZ4cpSHvqqF4C8.rdf",
 		"regen:113gdjFKcVCt13Za6vN7TtbgMM6LMSjRnu89BMCxeuHdkJ1hWUmy.rdf",
 		"regen:13toVgf5UjYBz6J29ZJhTVyBbhkQkSh7ZdKWzc4XEZ4cpSHvqqF4C8.pdf",
-		"regen:.rdf", "regen:1.rdf", "cosmos:abc.rdf", "",
+		"regen:.rdf", "regen:1.rdf", "cosmos:abc.rdf", "", "regen:€.rdf", "regen:\x8b.",
 	} {
 		f.Add(s)
 	}
